@@ -25,6 +25,17 @@ CLAIMED['C15'] = dict(
    ref="DESIGN.md section 5, C15",
    note=NOTE + "; A-FS: file system constant during one call (no TOCTOU claim)")
 
+CLAIMED['C11'] = dict(
+   text="Unbounded proof, for all strings and reader positions and with every parsing-state switch symbolic at once "
+        "(flags, escape/comment characters, delimiter tables, context database present or not, strict and tolerant), "
+        "of per-function contracts on the real tokenizer: no gap (pre_space == s[p0:pos]), progress and range "
+        "(pos < pos_end <= len(s), also for recovery tokens), token fields partition their source slice, peek does not "
+        "move on any exit, next/move_to/move_past bookkeeping, end-of-stream iff only whitespace is left; the tiling "
+        "and at-most-len(s)-reads statements are lemmas over these contracts.",
+   ref="DESIGN.md section 5, C11",
+   note=NOTE + "; LatexContextDb.test_for_specials/get_specials_spec and the environment-name regular expression "
+        "enter as assumed interface contracts (A-LIB); LatexTokenListTokenReader is not covered")
+
 NA = {
 }
 DEFAULT_NA = "check not built yet (work in progress; see DESIGN.md section 5 for the planned contracts)"
